@@ -108,6 +108,34 @@ static void check_matrix(const Rows& a, const std::string& fam, double kappa_lim
 	double t1 = 16 * n * (double)kappa * mc::U_ * n, t2 = t1 * (double)kappa;
 	if(!(e1 <= t1)) fail(fam, a, "X_times_M_not_identity", "max |X*M - I| = " + mc::dec(e1) + " tol " + mc::dec(t1));
 	if(!(e2 <= t2)) fail(fam, a, "M_times_X_not_identity", "max |M*X - I| = " + mc::dec(e2) + " tol " + mc::dec(t2));
+	// the returned object is a matrix like any other: the same answers as a fresh matrix with the same entries
+	// (determinant, invertibility, its own inverse, products in both spellings, transpose)
+	if(n <= 5 && kappa <= 1e4)
+	{
+		Rows xr(n, std::vector<double>(n));
+		for(int i = 0; i < n; i++)
+			for(int j = 0; j < n; j++) xr[i][j] = ((const Matrix&)X)[i][j];
+		Matrix F(xr);
+		auto obs = [&](Matrix& Z) {
+			std::string o;
+			double d = 0;
+			Matrix I2, P1, T;
+			bool inv2 = false;
+			if(mc::library_exits([&]() { d = Z.Determinant(); })) o += "det:exit;"; else o += "det:" + mc::hexd(d) + ";";
+			if(mc::library_exits([&]() { inv2 = Z.Invertible(); })) o += "invertible:exit;"; else o += std::string("invertible:") + (inv2 ? "1;" : "0;");
+			if(mc::library_exits([&]() { I2 = Z.Inverse(); P1 = Z * M; T = Z.Transpose(); })) o += "inverse/product/transpose:exit;";
+			else
+				for(const Matrix* Y : {&I2, &P1, &T})
+				{
+					o += std::to_string(Y->Rows()) + "x" + std::to_string(Y->Columns()) + ":";
+					for(unsigned i = 0; i < Y->Rows(); i++)
+						for(unsigned j = 0; j < Y->Columns(); j++) o += mc::hexd((*Y)[i][j]) + ",";
+				}
+			return o;
+		};
+		std::string ox = obs(X), of = obs(F);
+		if(ox != of) fail(fam, a, "returned_inverse_differs_from_fresh_matrix_with_same_entries", "X = M.Inverse() answers " + ox.substr(0, 100) + " but a fresh matrix with the entries of X answers " + of.substr(0, 100));
+	}
 }
 
 static void all_over(int n, const std::vector<double>& al, unsigned long long& unit, const std::string& fam)
